@@ -327,6 +327,19 @@ func lengthGuarded(fset *token.FileSet, fn *ast.BlockStmt, operandX ast.Expr, po
 		}
 	}
 	visit(fn)
+	// the same condition, to the left of a short-circuit operator: len(s) > 2 && s[:2] == ..,  len(s) < 3 || s[2] == ..
+	ast.Inspect(fn, func(n ast.Node) bool {
+		b, ok := n.(*ast.BinaryExpr)
+		if !ok || (b.Op != token.LAND && b.Op != token.LOR) || !(b.Y.Pos() <= pos && end <= b.Y.End()) {
+			return true
+		}
+		for _, c := range split(b.X, b.Op) {
+			if lenTest(c, b.Op == token.LOR) {
+				safe = true
+			}
+		}
+		return true
+	})
 	return safe
 }
 
@@ -702,6 +715,16 @@ func runInventoryCmd(args []string) {
 					case *ast.SliceExpr:
 						if x.Low == nil && x.High == nil && x.Max == nil {
 							return true // s[:] cannot be out of range
+						}
+						// s[:e] behind a test of len(s): the same rule (len(s) >= e is what both need)
+						if x.Low == nil && x.High != nil && x.Max == nil {
+							if lit, ok := x.High.(*ast.BasicLit); ok && lit.Kind == token.INT {
+								if k, err := strconv.Atoi(lit.Value); err == nil && lengthGuarded(fset, fd.Body, x.X, x.Pos(), x.End(), k, "") {
+									return true
+								}
+							} else if lengthGuarded(fset, fd.Body, x.X, x.Pos(), x.End(), 0, exprText(fset, x.High)) {
+								return true
+							}
 						}
 						// s[e:] behind a test of len(s) against the same e
 						if x.Low != nil && x.High == nil && x.Max == nil {
